@@ -52,7 +52,15 @@ ROLE_O = frozenset({"O"})
 
 def run_r1(repo: Repo, res: Result, rule_id: str = "C03.R1") -> None:
     n = 0
-    for m in S.models(repo):
+    try:
+        ms = S.models(repo)
+    except AnalysisError as e:
+        if rule_id != "C03.R1":
+            raise  # C12.MONO reports the search model's failure itself
+        # a search shape the model cannot read must not hide the verdicts of R2-R6
+        res.undecide(rule_id, "pytestarch/eval_structure/breadth_first_searches.py", f"search model: {e}")
+        return
+    for m in ms:
         if m.role != "other":
             continue
         fi = m.fi
